@@ -77,6 +77,66 @@ def loads_variant(fast_json, json_h, text, how):
         return {"exc": type(ex).__name__}
 
 
+class FormattingHandler(__import__("logging").Handler):
+    """what a host's handler does: format every record (a NullHandler never does, which hides %-style argument
+    mismatches and failing __str__/__repr__ of arguments)"""
+
+    def emit(self, record):
+        self.format(record)
+
+    def handleError(self, record):  # a formatting failure is the library's bug: make it visible to the harness
+        import sys
+        FormattingHandler.errors.append(repr(sys.exc_info()[1])[:200])
+
+
+FormattingHandler.errors = []
+
+
+class debug_logging:
+    """as a host application with logging configured at DEBUG: every logger.debug(...) branch is live; records go to
+    a NullHandler"""
+
+    def __enter__(self):
+        import logging
+
+        root = logging.getLogger()
+        self.prev = (root.manager.disable, root.level, list(root.handlers))
+        root.handlers[:] = [FormattingHandler()]
+        root.setLevel(logging.DEBUG)
+        logging.disable(logging.NOTSET)
+
+    def __exit__(self, *exc):
+        import logging
+
+        root = logging.getLogger()
+        logging.disable(self.prev[0])
+        root.setLevel(self.prev[1])
+        root.handlers[:] = self.prev[2]
+        return False
+
+
+def maybe_debug(i, every):
+    import contextlib
+
+    return debug_logging() if every and i % every == 0 else contextlib.nullcontext()
+
+
+def mutate_deep(x, depth=0):
+    """edit every container reachable from x in place (what a consumer of a decoded message may do)"""
+    if isinstance(x, dict):
+        for k in list(x):
+            mutate_deep(x[k], depth + 1)
+        if x:
+            x.pop(next(iter(x)))
+        x["_meta"] = {"edited": depth}
+    elif isinstance(x, list):
+        for y in x:
+            mutate_deep(y, depth + 1)
+        x.append({"edited": depth})
+        if len(x) > 1:
+            x.pop(0)
+
+
 def reuse_check(fast_json, v):
     """the same object encoded again after the caller changed it, the same text decoded twice with the
     first result changed in between: each call must stand on its own"""
@@ -103,11 +163,66 @@ def reuse_check(fast_json, v):
                 a["sentinel"] = 1
             b = fast_json.loads(t1)
             out["loads_independent"] = (b == b0) and (b is not a)
+            # ... and with every NESTED container of the first results edited, for str and bytes input alike
+            for inp in (t1, t1.encode("utf-8"), t1):
+                first = fast_json.loads(inp)
+                mutate_deep(first)
+                second = fast_json.loads(inp)
+                if second != b0:
+                    out["loads_independent"] = False
+                mutate_deep(second)
+            if fast_json.loads(t1) != b0:
+                out["loads_independent"] = False
+            # the object handed to dumps is edited deep inside between two encodes
+            w2 = copy.deepcopy(v)
+            mutate_deep(v)
+            mutate_deep(w2)
+            if fast_json.dumps(v) != fast_json.dumps(w2):
+                out["dumps_sees_mutation"] = False
         t = fast_json.dumps(v)
         out["dumps_repeatable"] = fast_json.dumps(v) == t
+        # a pretty print, failing encodes and failing decodes (the same failure 1..4 times) in between
+        fast_json.dumps(v, indent=2)
+        for k in range(1, 5):
+            for _ in range(k):
+                try:
+                    fast_json.dumps({"x": {1, 2}})
+                except Exception:  # noqa: BLE001
+                    pass
+                try:
+                    fast_json.loads('{"a": [1, 2')
+                except Exception:  # noqa: BLE001
+                    pass
+            if fast_json.dumps(v) != t or fast_json.loads(t) != fast_json.loads(t):
+                out["dumps_repeatable"] = False
     except Exception as ex:  # noqa: BLE001
         out["exc"] = type(ex).__name__
     return out
+
+
+def churn(fast_json):
+    """a long session: 1500 distinct short documents (more than any cache holds), each decoded, edited and decoded
+    again later, then the first ones once more; and the 1000th encode of one object"""
+    import json as stdjson
+
+    bad = []
+    docs = [stdjson.dumps({"jsonrpc": "2.0", "id": i, "result": {"content": [{"n": i}], "_meta": {"k": [i]}}}) for i in range(1500)]
+    for rnd in range(2):
+        for i, t in enumerate(docs):
+            a = fast_json.loads(t if i % 2 else t.encode("utf-8"))
+            if a != stdjson.loads(t):
+                bad.append(["loads", rnd, i])
+            mutate_deep(a)
+    for i in (0, 1, 2, 1499):
+        if fast_json.loads(docs[i]) != stdjson.loads(docs[i]):
+            bad.append(["loads-again", i])
+    obj = {"a": [1, {"b": None}], "c": "x"}
+    t0 = fast_json.dumps(obj)
+    for i in range(1000):
+        if fast_json.dumps(obj) != t0:
+            bad.append(["dumps", i])
+            break
+    return {"bad": bad[:5], "log_format_errors": FormattingHandler.errors[:3]}
 
 
 def measure_limits(fast_json):
@@ -190,19 +305,28 @@ def main():
                 imp = False
             ans = {"has_orjson": bool(fast_json.HAS_ORJSON), "orjson_importable": imp}
         elif op == "dumps2":
-            ans = {"out": [dumps_variant(fast_json, json_h.to_py(it["v"]), it.get("how", "plain")) for it in req["items"]]}
+            ans = {"out": []}
+            for i, it in enumerate(req["items"]):
+                with maybe_debug(i, req.get("debug_every")):
+                    ans["out"].append(dumps_variant(fast_json, json_h.to_py(it["v"]), it.get("how", "plain")))
         elif op == "loads2":
-            ans = {"out": [loads_variant(fast_json, json_h, it["t"], it.get("how", "str")) for it in req["items"]]}
+            ans = {"out": []}
+            for i, it in enumerate(req["items"]):
+                with maybe_debug(i, req.get("debug_every")):
+                    ans["out"].append(loads_variant(fast_json, json_h, it["t"], it.get("how", "str")))
         elif op == "reuse":
             ans = {"out": [reuse_check(fast_json, json_h.to_py(t)) for t in req["values"]]}
+        elif op == "churn":
+            ans = churn(fast_json)
         elif op == "limits":
             ans = measure_limits(fast_json)
         elif op == "dumps":
             res, tokens = [], {}
-            for t in req["values"]:
+            for i, t in enumerate(req["values"]):
                 v = json_h.to_py(t)
                 try:
-                    res.append({"text": fast_json.dumps(v)})
+                    with maybe_debug(i, req.get("debug_every")):
+                        res.append({"text": fast_json.dumps(v)})
                 except Exception as ex:  # noqa: BLE001
                     res.append({"exc": type(ex).__name__})
                 for x in json_h.floats_of(v):
@@ -215,9 +339,10 @@ def main():
             ans = {"out": res, "tokens": tokens}
         elif op == "loads":
             res = []
-            for s in req["texts"]:
+            for i, s in enumerate(req["texts"]):
                 try:
-                    res.append({"v": json_h.of_py(fast_json.loads(s))})
+                    with maybe_debug(i, req.get("debug_every")):
+                        res.append({"v": json_h.of_py(fast_json.loads(s))})
                 except Exception as ex:  # noqa: BLE001
                     res.append({"exc": type(ex).__name__})
             ans = {"out": res}
